@@ -124,6 +124,7 @@ type fnGen struct {
 	outStates       map[*ssa.BasicBlock]*state
 	edgeConds       map[[2]int]string
 	posText         map[token.Pos]string
+	sortedKeyRanges map[token.Pos]bool // map ranges that only collect the keys into a slice sorted right afterwards
 	abstracted      map[string]bool
 	assumptions     map[string]bool
 	stale           []string
@@ -1004,6 +1005,7 @@ func (g *fnGen) convert(st *state, x string, from, to types.Type) string {
 
 func (g *fnGen) buildPosIndex() {
 	g.posText = map[token.Pos]string{}
+	g.sortedKeyRanges = map[token.Pos]bool{}
 	syn := g.fn.Syntax()
 	if syn == nil {
 		return
@@ -1029,6 +1031,10 @@ func (g *fnGen) buildPosIndex() {
 			return false // nested closures are separate functions
 		}
 		switch e := n.(type) {
+		case *ast.BlockStmt:
+			g.markSortedKeyRanges(e.List)
+		case *ast.CaseClause:
+			g.markSortedKeyRanges(e.Body)
 		case *ast.IndexExpr:
 			g.posText[e.Lbrack] = txt(e)
 		case *ast.SliceExpr:
@@ -1055,6 +1061,58 @@ func (g *fnGen) buildPosIndex() {
 		}
 		return true
 	})
+}
+
+// markSortedKeyRanges recognises, syntactically, the one map iteration whose result does not depend on the
+// iteration order: `for k := range m { keys = append(keys, k) }` immediately followed by sort.Strings(keys) /
+// sort.Ints(keys) / slices.Sort(keys). The loop only adds the keys to one slice (no value, no other statement)
+// and the slice is put into a total order before anything else happens, so the range is not an obligation.
+func (g *fnGen) markSortedKeyRanges(stmts []ast.Stmt) {
+	for i := 0; i+1 < len(stmts); i++ {
+		rs, ok := stmts[i].(*ast.RangeStmt)
+		if !ok || rs.Body == nil || len(rs.Body.List) != 1 {
+			continue
+		}
+		key, ok := rs.Key.(*ast.Ident)
+		if !ok || key.Name == "_" {
+			continue
+		}
+		if v, ok := rs.Value.(*ast.Ident); rs.Value != nil && (!ok || v.Name != "_") {
+			continue
+		}
+		as, ok := rs.Body.List[0].(*ast.AssignStmt)
+		if !ok || len(as.Lhs) != 1 || len(as.Rhs) != 1 || as.Tok != token.ASSIGN {
+			continue
+		}
+		dst, ok := as.Lhs[0].(*ast.Ident)
+		call, ok2 := as.Rhs[0].(*ast.CallExpr)
+		if !ok || !ok2 || len(call.Args) != 2 || call.Ellipsis.IsValid() {
+			continue
+		}
+		fn, ok := call.Fun.(*ast.Ident)
+		a0, ok0 := call.Args[0].(*ast.Ident)
+		a1, ok1 := call.Args[1].(*ast.Ident)
+		if !ok || fn.Name != "append" || !ok0 || !ok1 || a0.Name != dst.Name || a1.Name != key.Name {
+			continue
+		}
+		es, ok := stmts[i+1].(*ast.ExprStmt)
+		if !ok {
+			continue
+		}
+		sc, ok := es.X.(*ast.CallExpr)
+		if !ok || len(sc.Args) != 1 {
+			continue
+		}
+		sel, ok := sc.Fun.(*ast.SelectorExpr)
+		pk, ok2 := sel.X.(*ast.Ident)
+		arg, ok3 := sc.Args[0].(*ast.Ident)
+		if !ok || !ok2 || !ok3 || arg.Name != dst.Name {
+			continue
+		}
+		if (pk.Name == "sort" && (sel.Sel.Name == "Strings" || sel.Sel.Name == "Ints" || sel.Sel.Name == "Float64s")) || (pk.Name == "slices" && sel.Sel.Name == "Sort") {
+			g.sortedKeyRanges[rs.For] = true
+		}
+	}
 }
 
 func (g *fnGen) anchor(pos token.Pos, fallback string) string {
